@@ -359,6 +359,47 @@ func runC01(c *runCtx) {
 		run("many-statements", []byte(strings.Repeat("SELECT 1;", d/4+1)), time.Minute)
 		run("deep-comment", []byte("SELECT "+strings.Repeat("/* x */ ", d)+"1"), time.Minute)
 	}
+	// every nesting construct at depths the parser accepts (below its recursion limit): a statement of a kilobyte or two
+	// that every entry point must get through in time — nothing may take a number of steps that doubles per level
+	{
+		stmtWrap := []string{"SELECT a FROM t WHERE a IN ({X})", "SELECT a FROM t WHERE a NOT IN ({X})", "SELECT a FROM t WHERE EXISTS ({X})", "SELECT a FROM t WHERE NOT EXISTS ({X})",
+			"SELECT a FROM t WHERE a = ({X})", "SELECT a FROM t WHERE a > ANY ({X})", "SELECT a FROM t WHERE a < ALL ({X})", "SELECT a FROM ({X}) z", "WITH c AS ({X}) SELECT a FROM c",
+			"SELECT ({X}) FROM t", "SELECT a FROM t JOIN ({X}) z ON z.a = t.a", "SELECT a FROM t, LATERAL ({X}) z", "SELECT a FROM t GROUP BY a HAVING MAX(b) IN ({X})", "SELECT a FROM t UNION ALL SELECT a FROM ({X}) z",
+			"SELECT a FROM t ORDER BY ({X})", "SELECT CASE WHEN EXISTS ({X}) THEN 1 ELSE 0 END FROM t"}
+		exprWrap := []string{"f({E})", "CAST({E} AS INT)", "CASE WHEN {E} = 1 THEN 1 ELSE 0 END", "CASE {E} WHEN 1 THEN 1 END", "COALESCE(1, {E})", "({E} + 1)", "({E}) BETWEEN 1 AND 2", "ARRAY[{E}]", "- {E}", "NOT {E}",
+			"({E}) IS NULL", "EXTRACT(YEAR FROM {E})", "SUBSTRING({E} FROM 1 FOR 2)", "({E})::int", "({E})[1]", "({E} IN (1, 2))", "({E} LIKE 'x')", "SUM({E}) OVER (PARTITION BY b)", "({E}, 1)", "x || {E}"}
+		nest := func(ws []string, hole, inner string, d int, pick func(int) int) string {
+			out := inner
+			for i := 0; i < d; i++ {
+				out = strings.ReplaceAll(ws[pick(i)], hole, out)
+			}
+			return out
+		}
+		for _, d := range []int{6, 12, 18, 24, 30, 36, 42, 48} {
+			for wi := range stmtWrap {
+				wi := wi
+				run("nest-statement", []byte(nest(stmtWrap, "{X}", "SELECT a FROM t WHERE b = 1", d, func(int) int { return wi })), time.Minute)
+			}
+			for wi := range exprWrap {
+				wi := wi
+				e := nest(exprWrap, "{E}", "a", d, func(int) int { return wi })
+				run("nest-expression", []byte("SELECT "+e+" FROM t"), time.Minute)
+				run("nest-expression", []byte("SELECT a FROM t WHERE "+e+" = 1"), time.Minute)
+			}
+			for k := 0; k < c.n(3, 12); k++ {
+				run("nest-statement-mixed", []byte(nest(stmtWrap, "{X}", "SELECT a FROM t WHERE b = 1", d, func(int) int { return rb.Intn(len(stmtWrap)) })), time.Minute)
+				e := nest(exprWrap, "{E}", "a", d, func(int) int { return rb.Intn(len(exprWrap)) })
+				run("nest-expression-mixed", []byte("SELECT a FROM t WHERE "+e+" = 1"), time.Minute)
+				// sub-queries inside expressions inside sub-queries
+				x := "SELECT a FROM t WHERE b = 1"
+				for i := 0; i < d/2; i++ {
+					x = strings.ReplaceAll(stmtWrap[rb.Intn(10)], "{X}", x)
+					x = strings.Replace(x, "SELECT a", "SELECT "+strings.ReplaceAll(exprWrap[rb.Intn(len(exprWrap))], "{E}", "a"), 1)
+				}
+				run("nest-both-mixed", []byte(x), time.Minute)
+			}
+		}
+	}
 	// token sequences for the low-level API
 	vocab := map[string]token.Token{}
 	var seqs [][]token.Token
